@@ -345,6 +345,29 @@ def run(facts, res):
                                   "an incremental refresh and a full reload of the same storage would disagree" % (
                                       k, sorted(x_.split("::")[-1] for x_ in v), sorted(x_.split("::")[-1] for x_ in common)), facts.body(k).loc())
     res.floor("A6", "listing loops with per-item fallible steps", n6, 5)
+    # ... and all three propagate a failure of the pack-level step (DataStorage::reload / refresh stop at the first pack that
+    # cannot be loaded; going on after that would make the outcome depend on where the listing put the bad pack)
+    from .c09 import _result_handled
+    n6b = 0
+    for name in ("melda::Melda::reload", "melda::Melda::refresh", "melda::Melda::reload_until"):
+        ob = facts.body(name)
+        if ob is None:
+            continue
+        for s_ in cg.sites[ob.path]:
+            if s_.fanout or not any(t_.path in ("datastorage::DataStorage::reload", "datastorage::DataStorage::refresh") or
+                                    (t_.impl_adt == "melda::Melda" and not t_.public and
+                                     (cg.reaches(t_, "datastorage::DataStorage::reload") or cg.reaches(t_, "datastorage::DataStorage::refresh")))
+                                    for t_ in s_.targets):
+                continue
+            n6b += 1
+            h_ = _result_handled(ob, s_.block, s_.term.dest)
+            ok_ = h_ in ("propagated with ?", "returned", "matched")
+            res.instance("A6", "%s: result of %s is %s" % (name, s_.name(), h_ or "DROPPED"), s_.loc())
+            if not ok_:
+                res.violation("A6", "%s|storage-step-result-not-propagated" % name,
+                              "%s does not propagate the Result of %s (%s): after a pack that cannot be loaded the remaining listed packs are not indexed, "
+                              "and continuing makes the replica's state depend on the position of the bad pack in the listing" % (name, s_.name(), h_ or "dropped"), s_.loc())
+    res.floor("A6", "pack-level reload / refresh steps in the three operations", n6b, 3)
 
     # ------------------------------------------------------------------ A5
     preds = set()
